@@ -57,7 +57,21 @@ impl Certificate {
 		format!("{}_{}", self.crt_name, self.key_type)
 	}
 
-	pub fn get_identifier_from_str(&self, identifier: &str) -> Result<Identifier, Error> {
+	pub fn get_identifier_from_str(
+		&self,
+		identifier: &str,
+		is_wildcard: bool,
+	) -> Result<Identifier, Error> {
+		// An authorization for a wildcard domain name carries the base domain name and a flag:
+		// the exact identifier is looked for first.
+		let full_identifier = if is_wildcard {
+			format!("*.{identifier}")
+		} else {
+			identifier.to_string()
+		};
+		if let Some(d) = self.identifiers.iter().find(|d| d.value == full_identifier) {
+			return Ok(d.clone());
+		}
 		let identifier = identifier.to_string();
 		for d in self.identifiers.iter() {
 			let val = match d.id_type {
@@ -143,8 +157,9 @@ impl Certificate {
 		proof: &str,
 		raw_proof: Option<String>,
 		identifier: &str,
+		is_wildcard: bool,
 	) -> Result<(ChallengeHookData, HookType), Error> {
-		let identifier = self.get_identifier_from_str(identifier)?;
+		let identifier = self.get_identifier_from_str(identifier, is_wildcard)?;
 		let mut hook_data = ChallengeHookData {
 			challenge: identifier.challenge.to_string(),
 			identifier: identifier.value.to_owned(),
